@@ -4,12 +4,11 @@
 From Coq Require Import ZArith List Bool Lia Sorting.Sorted.
 From Synnax Require Import Cesium.Store Cesium.StoreProofs Cesium.IndexSearch Cesium.IndexSearchProofs
      Cesium.Distance Cesium.Stamp Cesium.DomIterProofs Cesium.UnaryIter Cesium.DistanceProofs
-     Cesium.UnaryIterExact Cesium.Read.
+     Cesium.UnaryIterExact Cesium.Read Cesium.LayoutOk.
 Import ListNotations.
 Local Open Scope Z_scope.
 
 (* ---- counting and filtering on lists of stamps ---- *)
-Definition stamps_in (t : tr) (l : list Z) : list Z := filter (contains_stamp t) l.
 
 Lemma cnt_lt_cons ts x l : cnt_lt ts (x :: l) = (if x <? ts then 1 else 0) + cnt_lt ts l.
 Proof. unfold cnt_lt, zlen. simpl. destruct (x <? ts); simpl length; lia. Qed.
@@ -89,24 +88,27 @@ Qed.
 Lemma firstn_skipn_nil {A} (l : list A) n : (length l <= n)%nat -> forall m, firstn m (skipn n l) = [].
 Proof. intros H m. rewrite skipn_all2 by exact H. destruct m; reflexivity. Qed.
 
-(* ---- one data domain inside one index domain ---- *)
+(* ---- one data domain over an index on which Distance resolves its range ---- *)
+
+(* Distance resolves every range [a, t), t <= e, to the number of index stamps in it *)
+Definition dist_ok (P : list dom) (a e : Z) : Prop :=
+  forall t, a <= t <= e ->
+  exists da, distance P (TR a t) true = Ok da /\
+             pick_sample_offset da = cnt_lt t (stamps_of P) - cnt_lt a (stamps_of P).
+
 Section Slice.
 Variable P : list dom.
 Variable var : bool.
-Variable k : Z.
-Variable q d : dom.
-Hypothesis HP : lay P.
-Hypothesis Hq : znth P k = Some q.
-Hypothesis Hinc : inc (d_data q).
+Variable d : dom.
 Hypothesis Hd : t_s (d_tr d) < t_e (d_tr d).
-Hypothesis Hin : t_s (d_tr q) <= t_s (d_tr d) /\ t_e (d_tr d) <= t_e (d_tr q).
-Hypothesis Hal : dlen d = zlen (stamps_in (d_tr d) (d_data q)).   (* one sample per index stamp *)
+Hypothesis Hdist : dist_ok P (t_s (d_tr d)) (t_e (d_tr d)).
+Hypothesis Hal : dlen d = zlen (stamps_in (d_tr d) (stamps_of P)).   (* one sample per index stamp *)
 
 Variable v : tr.
 Hypothesis Hv : t_s v < t_e v.
 Hypothesis Hov : overlaps (d_tr d) v = true.
 
-Let Q := d_data q.
+Let Q := stamps_of P.
 Let ds := t_s (d_tr d).
 Let de := t_e (d_tr d).
 Let lo := Z.max ds (t_s v).
@@ -137,10 +139,7 @@ Definition offB : Z := cnt_lt hi Q - cnt_lt ds Q.
 
 Lemma dist_to t : ds <= t <= de ->
   exists da, distance P (TR ds t) true = Ok da /\ pick_sample_offset da = cnt_lt t Q - cnt_lt ds Q.
-Proof.
-  intros Ht. unfold ds, de in *.
-  apply (distance_one_domain P k q HP Hq Hinc); lia.
-Qed.
+Proof. intros Ht. apply Hdist. exact Ht. Qed.
 
 Theorem dser_exact :
   dser P var d v =
